@@ -17,7 +17,8 @@ from . import world as W
 VERIF = runner.VERIF
 KNOWN_FILE = os.path.join(VERIF, "KNOWN_FINDINGS.txt")
 EVIDENCE_DIR = os.path.join(VERIF, "evidence")
-REPLAY_DIR = os.path.join(VERIF, "replays")
+REGRESSION_DIR = os.path.join(VERIF, "replays")  # committed replay files: fixed/ and known/
+REPLAY_DIR = os.environ.get("RP2SIM_REPLAY_DIR") or REGRESSION_DIR  # where new violation replays are written
 THOROUGH_BASE = 1_000_000
 
 MODS = {"C12": "rp2sim.props.c12", "C16": "rp2sim.props.c16", "C17": "rp2sim.props.c17", "C18": "rp2sim.props.c18"}
@@ -202,7 +203,7 @@ def check(prop, tier, master, cases=None, src=None, log=print, write_evidence=Tr
     # regression phase: every committed replay file of this property (repaired defects and known findings) is re-executed on every run
     reg_cases = []
     for sub in ("fixed", "known"):
-        d = os.path.join(REPLAY_DIR, sub)
+        d = os.path.join(REGRESSION_DIR, sub)
         if os.path.isdir(d):
             for name in sorted(os.listdir(d)):
                 if name.endswith(".json"):
